@@ -395,6 +395,28 @@ pub fn run(args: &Args) {
         }
         o.tags.push("dump:agree".into());
 
+        // ---- TEXT tie: the model of the xml-rs reader lexes the saved document to the same events, and
+        // the model of the xml-rs writer prints these events as the same bytes
+        let lexed = model.eval_with(&format!("(xml-lex {})", hexatom(&s.xml)), &oracle::serve);
+        if lexed != events_term_of(&evs) {
+            o.disagreement = Some((format!("lex: {}", first_diff(&events_term_of(&evs), &lexed)), "lex".into()));
+            o.tags.push("lex:DISAGREE".into());
+            return o;
+        }
+        o.tags.push("lex:agree".into());
+        let rendered = model.eval_with(&format!("(xml-render {})", events_term_of(&evs)), &oracle::serve);
+        if rendered != hexatom(&s.xml) {
+            // a non-empty text that is blank is written by the crate (<N> </N>) and is not an event the reader
+            // delivers: the event list cannot reproduce it (the model prints <N />); both read back alike
+            let blank_text = { let x = &s.xml; let mut found = false; let mut i = 0; while i < x.len() { if x[i] == b'>' { let mut j = i + 1; while j < x.len() && (x[j] == b' ' || x[j] == b'\t' || x[j] == b'\n' || x[j] == b'\r') { j += 1; } if j > i + 1 && j + 1 < x.len() && x[j] == b'<' && x[j + 1] == b'/' { found = true; break; } } i += 1; } found };
+            if blank_text { o.tags.push("render:blank-text-not-comparable".into()); }
+            else {
+                o.disagreement = Some((format!("render: {}", first_diff(&hexatom(&s.xml), &rendered)), "render".into()));
+                o.tags.push("render:DISAGREE".into());
+                return o;
+            }
+        } else { o.tags.push("render:agree".into()); }
+
         // ---- PARSE tie on the saved document and on a surface rewriting of it
         // an authenticated file carrying xml2, and the bytes the crate's XML reader is handed for it: keepass'
         // TwofishCipher::decrypt validates the PKCS#7 padding but does not remove it (oracle::outer_dec_as_keepass),
@@ -516,5 +538,5 @@ pub fn run(args: &Args) {
         o.tags.push(format!("parse:agree ({})", if impl_s.starts_with("ok ") { "ok".to_string() } else { impl_s.clone() }));
         o
     });
-    write_report(args, &agg, "stream xml-object-mapping: for each generated database saved by the crate (scripted randomness; 3 in 4 with the full object model incl. Meta, 1 in 4 small), the strict reader extracts the XML and the inner stream; DUMP tie: the extracted model's dump_content of the database's content term (map-typed fields in the order observed in the saved document), under the same key stream, must be event for event what xml-rs (with the filtering of parse_from_bytes) reads from the saved XML, and must draw exactly the total length of the protected values from the stream; PARSE tie: the model's parse_events of the events of the saved document and of a surface rewriting (empty-element forms, ISO time stamps, attribute case and quoting, unknown elements, white space and comments) must equal the content Database::open returns for an authenticated file carrying that document (maps sorted on both sides), which in turn must equal the generated database; and for three damaged documents per case (truncation at a byte / at a tag, scalar text replaced by garbage, closing tag dropped, attribute values, an unprotected value marked Protected, an element emptied, an element duplicated) the model's result (content or XmlParseError variant) must equal the crate's; stream xml-domain: databases from the hostile generator (one ingredient class per case: blank map keys, stamp names Expires/UsageCount/non-names, empty icon or attachment bodies, Value::Bytes, empty/blank/separator-laden texts, odd protected values, odd keys, sub-second times) saved by the crate; the extracted wf_content must imply that open(save(db)) = db on the real code (violation otherwise), the histogram records per ingredient whether it is kept, altered or makes the file unreadable, and the DUMP and PARSE ties (including the error class of an unreadable own output and the writer's InvalidData error) are checked wherever the text layer below the events is not involved; every case is non-trivial", serde_json::json!({}));
+    write_report(args, &agg, "TEXT tie on every saved document: the model of the xml-rs reader (XmlText.lex_xml) lexes the document to the same events as xml-rs, and the model of the xml-rs writer (XmlText.render_xml) prints those events as the same bytes (byte-exact, except documents holding a blank non-empty text, which no event list reproduces); stream xml-object-mapping: for each generated database saved by the crate (scripted randomness; 3 in 4 with the full object model incl. Meta, 1 in 4 small), the strict reader extracts the XML and the inner stream; DUMP tie: the extracted model's dump_content of the database's content term (map-typed fields in the order observed in the saved document), under the same key stream, must be event for event what xml-rs (with the filtering of parse_from_bytes) reads from the saved XML, and must draw exactly the total length of the protected values from the stream; PARSE tie: the model's parse_events of the events of the saved document and of a surface rewriting (empty-element forms, ISO time stamps, attribute case and quoting, unknown elements, white space and comments) must equal the content Database::open returns for an authenticated file carrying that document (maps sorted on both sides), which in turn must equal the generated database; and for three damaged documents per case (truncation at a byte / at a tag, scalar text replaced by garbage, closing tag dropped, attribute values, an unprotected value marked Protected, an element emptied, an element duplicated) the model's result (content or XmlParseError variant) must equal the crate's; stream xml-domain: databases from the hostile generator (one ingredient class per case: blank map keys, stamp names Expires/UsageCount/non-names, empty icon or attachment bodies, Value::Bytes, empty/blank/separator-laden texts, odd protected values, odd keys, sub-second times) saved by the crate; the extracted wf_content must imply that open(save(db)) = db on the real code (violation otherwise), the histogram records per ingredient whether it is kept, altered or makes the file unreadable, and the DUMP and PARSE ties (including the error class of an unreadable own output and the writer's InvalidData error) are checked wherever the text layer below the events is not involved; every case is non-trivial", serde_json::json!({}));
 }
